@@ -230,8 +230,8 @@ func (in *inst) post(c *astutil.Cursor) bool {
 			in.used = true
 		}
 	case *ast.SendStmt:
-		if _, inComm := c.Parent().(*ast.CommClause); inComm {
-			return true
+		if cc, inComm := c.Parent().(*ast.CommClause); inComm && cc.Comm == ast.Stmt(n) {
+			return true // the communication of a select case (handled by the select rewrite); a send in the case's body is an ordinary send
 		}
 		cv, sv := in.tmp("c"), in.tmp("s")
 		c.Replace(&ast.BlockStmt{List: []ast.Stmt{
